@@ -704,11 +704,19 @@ func TestC02(t *testing.T) {
 	cells, silent := 0, 0
 	arches := append(append([]string{}, docArches...), "riscv64", "loong64")
 	for _, a := range arches {
-		for _, ov := range []bool{false, true} {
+		for _, ovKind := range []string{"", "custom", "goarch"} {
+			ov := ovKind != ""
 			c := metaBaseCase()
 			c.Meta = Meta{Name: "archcell", Arch: a, Version: "1.0.0", Maintainer: "V <v@example.com>", Description: "arch matrix"}
-			if ov {
+			switch ovKind {
+			case "custom":
 				c.X = &Extras{DebArch: "odeb", RPMArch: "orpm", APKArch: "oapk", ArchArch: "oarch", IPKArch: "oipk"}
+			case "goarch":
+				// the override is itself a GOARCH name the table would translate: it must still be used verbatim
+				c.X = &Extras{DebArch: "arm64", RPMArch: "arm64", APKArch: "386", ArchArch: "amd64", IPKArch: "386"}
+				if a == "arm64" || a == "386" || a == "amd64" {
+					c.X = &Extras{DebArch: "arm7", RPMArch: "arm7", APKArch: "arm7", ArchArch: "arm7", IPKArch: "arm7"}
+				}
 			}
 			for _, f := range AllFormats {
 				if _, ok := table[f][a]; !ok && !ov {
@@ -720,7 +728,7 @@ func TestC02(t *testing.T) {
 			st.Report(t, c, checkC02(c, table))
 		}
 	}
-	st.Exhaustive["GOARCH x format x override"] = cells
+	st.Exhaustive["GOARCH x format x {no override, custom override, GOARCH-named override}"] = cells
 	st.Label("arch-matrix-docs-silent-cells", silent)
 	rapid.Check(t, func(rt *rapid.T) {
 		c := metaBaseCase()
